@@ -85,6 +85,20 @@ func DrawFunctional(rt *rapid.T, o FuncOpt) *Subject {
 			addErrorForms(rt, env, p, used, s, id, o)
 		}
 	}
+	if o.Kind == "error" && !o.Avoid["C15-unnamed-params"] {
+		// every subject has one ToError whose function has an error parameter and a second parameter, named
+		// after identifiers the generated wrapper uses itself (the supplied error, the results, f)
+		names := rapid.Permutation([]string{"e", "err", "out0", "success", "f", "c", "e1"}).Draw(rt, "te-fixed-names")
+		fsig := &progen.Sig{Params: []progen.Param{{Name: names[0], Type: progen.ErrorT()}, {Name: names[1], Type: progen.B("int")}},
+			Results: []*progen.Type{progen.B("string"), progen.B("bool")}, Mode: "hostile"}
+		if used.Claim("toerror|" + fsig.TypeKey()) {
+			id := fmt.Sprintf("T%d", len(s.Entries))
+			e := s.newFuncEntry(id, fsig)
+			p.Add("func ToError%s(err error, f %s) any {\n\treturn deriveToError%s(err, f)\n}\n", id, fsig.FuncType(p.T), id)
+			e.Funcs["toerror"] = "ToError" + id
+			e.Tags["form"] = "toerror"
+		}
+	}
 	return s
 }
 
@@ -306,7 +320,7 @@ func addErrorForms(rt *rapid.T, env *progen.Env, p *progen.Prog, used progen.Use
 		e.Funcs["traverse"] = "Traverse" + id
 		e.Tags["form"] = "traverse"
 	case "toerror":
-		modes := []string{"named", "blank"}
+		modes := []string{"named", "blank", "hostile", "hostile", "minted"}
 		if !o.Avoid["C15-unnamed-params"] {
 			modes = append(modes, "unnamed")
 		}
@@ -314,7 +328,12 @@ func addErrorForms(rt *rapid.T, env *progen.Env, p *progen.Prog, used progen.Use
 		names := progen.NameParams(rt, n, modes[rapid.IntRange(0, len(modes)-1).Draw(rt, "te-mode")])
 		var ps []progen.Param
 		for i := 0; i < n; i++ {
-			ps = append(ps, progen.Param{Name: names[i], Type: env.DrawSigType(rt, true)})
+			pt := env.DrawSigType(rt, true)
+			if (names[i] == "e" || names[i] == "err" || names[i] == "c") && rapid.Bool().Draw(rt, "te-errparam") {
+				// a parameter that could be mistaken for the supplied error
+				pt = progen.ErrorT()
+			}
+			ps = append(ps, progen.Param{Name: names[i], Type: pt})
 		}
 		outs := rlist(0, 2)
 		fsig := &progen.Sig{Params: ps, Results: append(append([]*progen.Type{}, outs...), progen.B("bool"))}
